@@ -89,3 +89,50 @@ Definition respects (ids refs : list nat) (p : op) : bool :=
 
 Definition refs_of (h : heap) (ids : list nat) : list nat :=
   flat_map (fun o => match find o (objs h) with Some t => [o_arr t] | None => [] end) ids.
+
+(* ---- (c) copy discipline of the broadcasting binary operators ---------------
+   Tensor.__add__/__sub__/__mul__/__truediv__/__pow__ (_make_promote_array_func):
+   labels only the right operand has are appended to the LEFT operand with
+   `new_ind` (an in-place write), labels only the left operand has to the RIGHT
+   one; a `copied` flag makes sure the first write of each loop goes to a private
+   copy; finally the right operand is transposed, in place iff it is a copy.
+   The model records the target of every object write. *)
+Inductive tgt := TSelf | TOther | TFreshL | TFreshR.
+
+Definition tgt_eqb (a b : tgt) : bool :=
+  match a, b with TSelf, TSelf | TOther, TOther | TFreshL, TFreshL | TFreshR, TFreshR => true | _, _ => false end.
+Fixpoint tgts_eqb (a b : list tgt) : bool :=
+  match a, b with
+  | [], [] => true
+  | x :: a', y :: b' => tgt_eqb x y && tgts_eqb a' b'
+  | _, _ => false
+  end.
+
+(* the two loops, with the flag exactly as in the source: `reset` says whether
+   the flag is cleared between the loops (the source does; dropping the line is
+   the classic slip) *)
+(* one loop: `copied` is the flag on entry, `is_copy` whether the operand variable really holds a private copy (an
+   already-set flag is trusted even if the operand was never copied - that is what makes a missing reset matter) *)
+Fixpoint expand_loop_trust (n : nat) (copied : bool) (is_copy : bool) (orig fresh : tgt) : list tgt * bool * bool :=
+  match n with
+  | 0 => ([], copied, is_copy)
+  | S n' => let is_copy' := if copied then is_copy else true in
+            let cur := if is_copy' then fresh else orig in
+            let '(l, c, k) := expand_loop_trust n' true is_copy' orig fresh in (cur :: l, c, k)
+  end.
+
+Definition binop_writes_gen (reset : bool) (nl nr : nat) : list tgt :=
+  let '(wl, c1, _) := expand_loop_trust nl false false TSelf TFreshL in
+  let c1' := if reset then false else c1 in
+  let '(wr, c2, k2) := expand_loop_trust nr c1' false TOther TFreshR in
+  wl ++ wr ++ (if c2 then [if k2 then TFreshR else TOther] else []).
+
+Definition binop_writes := binop_writes_gen true.
+
+Definition is_fresh (t : tgt) : bool := match t with TFreshL | TFreshR => true | _ => false end.
+
+(* the writes as heap operations: operands are objects a, b; the copies fa, fb *)
+Definition obj_of (a b fa fb : nat) (t : tgt) : nat :=
+  match t with TSelf => a | TOther => b | TFreshL => fa | TFreshR => fb end.
+Definition binop_body (a b fa fb : nat) (payload : nat -> list nat) (ws : list tgt) : list op :=
+  map (fun kt => SetInds (obj_of a b fa fb (snd kt)) (payload (fst kt))) (combine (seq 0 (length ws)) ws).
